@@ -242,6 +242,7 @@ func (s *Scorch) introduceSegment(next *segmentIntroduction) error {
 	rootPrev := s.root
 	s.root = newSnapshot
 	atomic.StoreUint64(&s.stats.CurRootEpoch, s.root.epoch)
+	verifIntroduceSegmentLocked(s, next, newSnapshot)
 	// release lock
 	s.rootLock.Unlock()
 	verifIntroduceSegment(s, next, newSnapshot)
@@ -332,6 +333,7 @@ func (s *Scorch) introducePersist(persist *persistIntroduction) {
 	rootPrev := s.root
 	s.root = newIndexSnapshot
 	atomic.StoreUint64(&s.stats.CurRootEpoch, s.root.epoch)
+	verifIntroducePersistLocked(s, verifIDs, newIndexSnapshot)
 	s.rootLock.Unlock()
 	verifIntroducePersist(s, verifIDs, newIndexSnapshot)
 
@@ -506,6 +508,7 @@ func (s *Scorch) introduceMerge(nextMerge *segmentMerge) {
 	rootPrev := s.root
 	s.root = newSnapshot
 	atomic.StoreUint64(&s.stats.CurRootEpoch, s.root.epoch)
+	verifIntroduceMergeLocked(s, verifInfo, skipped, newSnapshot)
 	// release lock
 	s.rootLock.Unlock()
 	verifIntroduceMerge(s, verifInfo, skipped, newSnapshot)
